@@ -400,8 +400,8 @@ Proof.
   - destruct (inv_below _ _ _ _ _ _ Hlt Hinv) as (Hrv & Hpos & Hrem & Hlo & Hhi & Hp0 & Hple).
     destruct (below_tail maxp (vpow v) t Hall Hlt) as [Hcnt Hgap].
     assert (Hcapped : maxp - vpow v <= ppv).
-    { apply (infeasible_step (Z.of_nat (length t)) (maxp - vpow v) (room maxp t) rem); try lia.
-      replace (1 + Z.of_nat (length t)) with rv by lia. assumption. }
+    { apply (infeasible_step (Z.of_nat (length t)) (maxp - vpow v) (room maxp t) rem); try lia;
+        replace (1 + Z.of_nat (length t)) with rv by lia; assumption. }
     destruct (Z.leb_spec maxp (vpow v + ppv)) as [Hcap|Hno]; [|lia].
     constructor; [reflexivity|]. apply IH; [assumption|apply inv_next; [assumption|lia]|lia].
 Qed.
